@@ -99,7 +99,7 @@ def main() -> int:
     rep = Report(PROP)
     t = tier()
     sd = seed()
-    n_clean = 160 if t == "quick" else 2500
+    n_clean = 420 if t == "quick" else 3000
     n_hazard = 0 if t == "quick" else 1200
     cases = [(i, "clean", sd, (0, 1, 3)[i % 3] if t == "quick" else (0, 1, 3, 5)[i % 4]) for i in range(n_clean)]
     cases += [(i, "hazard", sd, 3) for i in range(n_hazard)]
@@ -126,7 +126,7 @@ def main() -> int:
     discards = rep.counters.get("discarded_not_well_defined", 0)
     if discards > 0.2 * max(1, rep.evaluations):
         rep.inconclusive_because(f"{discards} of {rep.evaluations} generated programs were not well-defined in CPython")
-    return rep.finish(min_distinct=40 if t == "quick" else 400)
+    return rep.finish(min_distinct=100 if t == "quick" else 400)
 
 
 if __name__ == "__main__":
